@@ -613,7 +613,7 @@ pub fn c06(ctx: &mut Ctx) -> R {
         0 => None,
         1 => Some("chunked"),
         2 => Some(*ctx.pick(&["Chunked", "CHUNKED", "cHuNkEd"])),
-        3 => Some(if extra_dontcare { "chunked, gzip" } else { *ctx.pick(&["gzip, chunked", "gzip,chunked", "deflate , gzip ,  chunked"]) }),
+        3 => Some(if extra_dontcare { "chunked, gzip" } else { *ctx.pick(&["gzip, chunked", "gzip,chunked", "deflate , gzip ,  chunked", "gzip,\tchunked", "gzip \t, \tChunked"]) }),
         _ => Some(*ctx.pick(&["gzip", "identity", "deflate, gzip", "chunke", "chunkedx", "chunked-x", "xchunked", "gzip,", "gzip, , deflate", ",gzip", "c"])),
     };
     // request: valid for the method (HTTP/1.1 so that every method is allowed)
@@ -626,7 +626,7 @@ pub fn c06(ctx: &mut Ctx) -> R {
     cfg.added.retain(|(n, _)| n != "content-length" && n != "transfer-encoding");
     cfg.framing = crate::reqgen::Framing::None;
     let body = gen_req_body(ctx, &cfg, true);
-    let spec = RespSpec { status, http11, cl, te, conn: vec![], generic_fields: ctx.range(0, 3), location: if (300..400).contains(&status) && ctx.flip() { vec!["/n".into()] } else { vec![] }, location_raw: vec![], close_len: ctx.range(0, 300) };
+    let spec = RespSpec { status, http11, cl, te, conn: vec![], generic_fields: ctx.range(0, 3), location: if ((300..400).contains(&status) && ctx.flip()) || ctx.chance(1, 8) { vec!["/n".into()] } else { vec![] }, location_raw: vec![], close_len: ctx.range(0, 300) };
     let plan = build_resp(ctx, method, &spec);
     let one_shot = ctx.chance(3, 4);
     let mut tail = Vec::new();
